@@ -790,6 +790,7 @@ class Connection:
         self.commit_points = []  # index into self.log at each commit
         self.write_log = []  # index into self.log of each elementary write
         self.rollbacks = []  # number of buffered elementary writes discarded by each rollback
+        self.explicit_txn = False  # an explicit BEGIN is open (matters in autocommit mode)
         self.closed = False
         self.total_changes = 0
 
@@ -810,6 +811,7 @@ class Connection:
         self._commit()
 
     def rollback(self):
+        self.explicit_txn = False
         self.rollbacks.append(self.uncommitted_writes)
         self.tables = {k: t.copy() for k, t in self.committed.items()}
         self.uncommitted_writes = 0
@@ -863,6 +865,7 @@ class Connection:
             self.tables = {k: t.copy() for k, t in self.committed.items()}
 
     def _commit(self):
+        self.explicit_txn = False
         self.committed = {k: t.copy() for k, t in self.tables.items()}
         if self.shared:
             DATABASES[self.database] = self.committed
@@ -879,7 +882,7 @@ class Connection:
         self.uncommitted_writes = self.uncommitted_writes + n  # may be a z3 term (symbolic pre-state)
         self.total_changes += n
         self.write_log.append(len(self.log))
-        if self.isolation_level is None:
+        if self.isolation_level is None and not self.explicit_txn:
             self._commit()
         else:
             self.in_transaction = True
@@ -993,7 +996,10 @@ class Cursor:
             else:
                 self._rows = []
         elif kind == "begin":
+            if conn.explicit_txn:
+                raise OperationalError("cannot start a transaction within a transaction")
             conn.in_transaction = True
+            conn.explicit_txn = True
         elif kind == "commit":
             conn._commit()
         elif kind == "rollback":
